@@ -823,7 +823,9 @@ C13.manifest = {
             "the weights in both directions, i.e. the repair of F16); C13_accepted_move_increases_Q(_directed); "
             "C13_move_only_if_strictly_better - the model's update_best_com (own community first, ascending id, strict "
             ">) moves a node only to a community whose gain is positive, maximal and STRICTLY larger than the gain of "
-            "staying; C13_aggregation_preserves_Q - relabelling edges by community, merging parallel edges by summing "
+            "staying; C13_model_move_increases_Q - composing the two: if at a visit the model's bookkeeping agrees with "
+            "the edge multiset (m, degree, Stot of both communities, candidate weights), the move it decides strictly "
+            "increases Newman's modularity; C13_aggregation_preserves_Q - relabelling edges by community, merging parallel edges by summing "
             "(self-loops kept), smaller name first when undirected, preserves Newman's modularity for the induced "
             "partition; C13_strict_chain_bounded - a strictly increasing chain inside a finite universe is no longer "
             "than the universe; C13_move_gain(_directed) - the underlying algebra (field over Q).",
